@@ -322,6 +322,14 @@ def judge(case, obs):
         if o["mutated"]:
             bad("caller-timeout-mutated", k, conn, "-", "Timeout object changed by the request", "unchanged")
         if len(o["connects"]) != (1 if fresh else 0):
+            if fresh and not o["connects"] and o["outcome"] != "ok":
+                # the request gave up before it dialled although nothing was scripted to fail by then: whatever
+                # it raised (a read timeout of 0 from a clock started by ANOTHER request, TimeoutStateError, ...)
+                # comes from the timeout bookkeeping under test
+                bad("request-failed-before-connecting", k, conn, "-", o["outcome"], "a connection attempt with timeout %r" % (sockval(C),))
+                cls.append("no-connect")
+                alive[host] = False
+                continue
             raise HarnessError("history shape: step %d expected %s connection, saw %d connects (%r)"
                                % (k, conn, len(o["connects"]), case))
         # ---- connect phase: min(connect, total)
